@@ -114,7 +114,10 @@ template <bool NoneIsLeaf>
                     << ", got " << PyRepr(common_registry_namespace) << ".";
                 throw py::value_error(oss.str());
             }
-        } else if (node.kind != PyTreeKind::Custom) [[likely]] {
+        } else if (node.kind != PyTreeKind::Custom &&
+                   !IsDictInsertionOrdered(registry_namespace,
+                                           /*inherit_global_namespace=*/false)) [[likely]] {
+            // Same rule as `Flatten()`: keep the namespace if its dict order mode is in effect.
             registry_namespace = "";
         }
     };
